@@ -6,7 +6,7 @@ The table is the specification (DESIGN.md appendix D / B): result expression in
 terms of operands A0, A1.  Hand-written blocks live in *.hand files that are
 appended verbatim."""
 import re
-K = {'num': 'isNum', 'str': 'isStr', 'bool': 'isBool', 'time': 'isTime'}
+K = {'num': 'isNum', 'str': 'isStr', 'bool': 'isBool', 'time': 'isTime', 'list': 'isListV', 'map': 'isMapV', 'maybe': 'isMaybeV', 'any': 'nonnil'}
 ACC = {'num': 'num', 'str': 'strv', 'bool': 'boolv', 'time': 'timev'}
 def E(kind, i): return f'{ACC[kind]}(A{i})'
 n0, n1 = 'num(A0)', 'num(A1)'
@@ -49,6 +49,14 @@ T = [
  ('SUB_TIME_TIME', ['time', 'time'], 'num', f'same(num(result), {t0}.Sub({t1}).Seconds())', 'C01 C02 C03 C04', {}),
  ('ADD_STR_STR', ['str', 'str'], 'str', f'strv(result) == {s0} + {s1}', 'C01 C02 C03 C04', {}),
  ('LEN_STR', ['str'], 'num', f'same(num(result), float64(utf8.RuneCountInString({s0})))', 'C01 C02 C03 C04', {}),
+ ('EQ_LIST_LIST', ['list', 'list'], 'bool', 'boolv(result) == valEq(A0, A1)', 'C01 C02 C03 C04 C18', {}),
+ ('NE_LIST_LIST', ['list', 'list'], 'bool', 'boolv(result) == !valEq(A0, A1)', 'C01 C02 C03 C04 C18', {}),
+ ('EQ_MAP_MAP', ['map', 'map'], 'bool', 'boolv(result) == valEq(A0, A1)', 'C01 C02 C03 C04 C18', {}),
+ ('NE_MAP_MAP', ['map', 'map'], 'bool', 'boolv(result) == !valEq(A0, A1)', 'C01 C02 C03 C04 C18', {}),
+ ('LEN_LIST', ['list'], 'num', 'same(num(result), float64(len(A0.List().V)))', 'C01 C02 C03 C04', {'novm': True}),
+ ('LEN_MAP', ['map'], 'num', 'same(num(result), float64(len(A0.Map().V)))', 'C01 C02 C03 C04', {'novm': True}),
+ ('GET_MAYBE', ['maybe', 'any'], None, 'result == ite(A0.Maybe().V != nil, A0.Maybe().V, A1) && result != nil', 'C01 C02 C03 C04 C16', {'novm': True}),
+ ('STRTOTIME_STR', ['str'], 'time', 'timev(result) == time.Unix(strtotimeU(strv(A0)), 0)', 'C01 C02 C03 C04', {}),
  ('LOGIC_NOT_BOOL', ['bool'], 'bool', f'boolv(result) == !{b0}', 'C01 C02 C03 C04', {'op': 'OP_LOGICAL_NOT'}),
 ]
 def sub(expr, m):
@@ -86,6 +94,7 @@ out.append(open('/verif/contracts/vm.hand').read())
 out.append('// ---- table-driven opcases of switchThreading ---------------------------')
 out.append('// (continuation of the `func switchThreading` block that ends vm.hand)')
 for name, args, res, expr, props, extra in T:
+    if extra.get('novm'): continue
     op = extra.get('op', 'OP_' + name)
     n = len(args)
     m = {f'A{i}': f'old(stk(v, sp0-{n-i}))' for i in range(n)}
